@@ -153,7 +153,7 @@ LANG_RULE = ("A: expression trees built by TLC (Gen_Lang): stage 1 = every one-c
              "{X1, S1, S2, C1, 1, {} , local a} plus ~4000 feature seeds (filters with both parameter forms, both recursion "
              "forms, imperative blocks with iterate/assign/guard, tuple-pattern and enumerated binders, calls of plain and "
              "templated term-functions and a predicate); stage 2 = every wrapping of a stage-1 tree in one more constructor. "
-             "Each tree is rendered from the specification's token sequences (RSSyntax) in 2 parenthesisations x MATH/ASCII x "
+             "Each tree is rendered from the specification's token sequences (RSSyntax) in 3 parenthesisations (only the necessary pairs / every admissible redundant pair / every pair written twice) x MATH/ASCII x "
              "spacings, parsed, type-checked and evaluated under 3 interpretations. non-trivial = accepted tree with >= 1 "
              "operator; distinct = distinct tree. ")
 
@@ -165,7 +165,7 @@ def lang_plan(ctx, props, san=False, extra_rule="", syntax=False, sample_m=0):
     pre = "asan-" if san else ""
     ctx.constants = {"quick": "Gen_Lang_q (stage 1: one-constructor trees + feature seeds)" + (" + Gen_Syntax (operator triples, constructors, Greek names)" if syntax else ""),
                      "thorough": "quick + Gen_Lang_m (stage 2 with X1, S1, S2 as siblings: ~1.5M trees)",
-                     "interpretations": 3, "renderings_per_tree": "2 parenthesisations x 2 syntaxes x up to 4 spacings"}
+                     "interpretations": 3, "renderings_per_tree": "3 parenthesisations x 2 syntaxes x up to 4 spacings"}
     if syntax:
         ctx.replay("Gen_Syntax.tla", "Gen_Syntax.cfg", h, ["--props", ",".join(props)], tag=pre + "Gen_Syntax", timeout=1500, xss="64m")
     ctx.replay("Gen_Lang.tla", "Gen_Lang_q.cfg", h, ["--props", ",".join(props)], tag=pre + "Gen_Lang_q", timeout=1500, xss="64m", xmx="12g")
